@@ -29,6 +29,7 @@ func Main(extra func(args []string) (int, bool)) {
 		fs.IntVar(&a.N, "n", 1, "")
 		fs.IntVar(&a.From, "from", 0, "")
 		fs.IntVar(&a.Only, "only", -1, "")
+		fs.StringVar(&a.Skip, "skip", "", "")
 		fs.StringVar(&a.Out, "out", "", "")
 		fs.StringVar(&a.Progress, "progress", "", "")
 		fs.Float64Var(&a.CPUMul, "cpumul", 0, "")
